@@ -188,6 +188,7 @@ fn main() {
     main_for(|tier| {
         let mut o = Opts::new(tier, if tier == "thorough" { 12 } else { 8 });
         o.min_depth = 3;
+        o.xcheck = tier == "thorough";
         o.rule = "all sequences over gateway approvals (2 message ids x destination app {example, miniapp} x 2 source addresses x 2 payloads) and deliveries app.execute(chain, id, source address, payload) for both apps x 3 ids (one never approved, on another chain) x 2 source addresses x 2 payloads; so never-approved, approved-for-the-other-app, other payload / source address / id / chain, delivered twice and conforming deliveries all occur; explored to fixpoint of the finite status graph".into();
         (C16, o)
     });
